@@ -169,6 +169,31 @@ func crlBehaviours() []crlBehaviour {
 	withDelta("delta-no-next-update", true, false, func(w *crlWorld, b, d *pki.CRLSpec) { d.NextUpdate = time.Time{} })
 	withDelta("delta-unknown-critical-ext", true, false, func(w *crlWorld, b, d *pki.CRLSpec) { d.UnknownCrit = true })
 	withDelta("base-lists-cert+delta-clean", false, true, func(w *crlWorld, b, d *pki.CRLSpec) { b.Entries = []pki.CRLEntry{entry(w)} })
+	// what ties a delta to its base are the CRL numbers; a delta whose thisUpdate lies before the base's (CAs backdate the two jobs
+	// differently) counts like any other
+	withDelta("delta-issued-before-its-base+lists-cert", false, true, func(w *crlWorld, b, d *pki.CRLSpec) {
+		b.ThisUpdate, d.ThisUpdate = pki.Now.Add(-time.Hour), pki.Now.Add(-3*time.Hour)
+		d.Entries = []pki.CRLEntry{entry(w)}
+	})
+	withDelta("delta-issued-before-its-base+clean", false, false, func(w *crlWorld, b, d *pki.CRLSpec) {
+		b.ThisUpdate, d.ThisUpdate = pki.Now.Add(-time.Hour), pki.Now.Add(-3*time.Hour)
+	})
+	// lists of more than a MiB each (some 40 000 entries), announced with their length: what is validated is what was downloaded,
+	// whatever the size, and the first download is still intact when the second has been made
+	many := func(from int64) []pki.CRLEntry {
+		out := make([]pki.CRLEntry, 40000)
+		for k := range out {
+			out[k] = otherEntry
+			out[k].Serial = big.NewInt(from + int64(k))
+		}
+		return out
+	}
+	withDelta("large-base+large-delta(clean)", false, false, func(w *crlWorld, b, d *pki.CRLSpec) {
+		b.Entries, d.Entries = many(5000000), many(6000000)
+	})
+	withDelta("large-base-lists-cert+large-delta", false, true, func(w *crlWorld, b, d *pki.CRLSpec) {
+		b.Entries, d.Entries = append(many(5000000), entry(w)), many(6000000)
+	})
 	// CRL number 0 is a number like any other (a CA's first CRL): its delta counts
 	withDelta("base-number-0+delta-lists-cert", false, true, func(w *crlWorld, b, d *pki.CRLSpec) {
 		b.Number, d.Number = 0, 1
@@ -258,6 +283,7 @@ type c05Scenario struct {
 	freshest  bool
 	crlSign   bool
 	free      bool
+	large     bool // only the behaviours with lists of more than a MiB
 	query     bool // distribution points that differ only in their query string, real HTTPFetcher with a (correct) cache
 	once      sync.Once
 	w         *crlWorld
@@ -274,6 +300,9 @@ func (s *c05Scenario) alphabet() []int {
 	for i := range c05Behaviours {
 		if c05Behaviours[i].httpOnly && s.fetcher != "http" {
 			continue
+		}
+		if strings.HasPrefix(c05Behaviours[i].name, "large-") != s.large {
+			continue // the lists of more than a MiB have scenarios of their own (they are expensive to make and to check)
 		}
 		idx = append(idx, i)
 	}
@@ -304,6 +333,16 @@ func c05Scenarios(tier mc.Tier) []mc.Scenario {
 						})
 					}
 				}
+			}
+		}
+	}
+	// lists of more than a MiB, through the real HTTPFetcher (announced length) and through a caller's fetcher
+	for _, ik := range []string{"p256-a", "rsa2048-a"} {
+		for n := 1; n <= 2; n++ {
+			for _, f := range []string{"fake", "http"} {
+				s := &c05Scenario{issuerKey: ik, nDP: n, fetcher: f, crlSign: true, free: true, large: true}
+				out = append(out, mc.Scenario{Name: fmt.Sprintf("C05-%s-dp%d-%s-lists-of-more-than-a-MiB", kindOf(ik), n, f), Bound: -1, Body: s.body,
+					Params: map[string]string{"issuer": ik, "dps": fmt.Sprint(n), "fetcher": f, "entriesPerList": "40000"}})
 			}
 		}
 	}
